@@ -97,6 +97,11 @@ macro_rules! impl_current_for {
 
         impl$(<$($generic $( : $trait_tt1 $( + $trait_tt2)*)?),+>)? $struct_name$(<$($generic),+>)? {
             /// Init the current.
+            // Never inlined, like `current` and `clean_current`: a coroutine may be suspended on
+            // one thread and resumed on another, and once these are inlined into a function that
+            // spans such a switch the compiler reuses the thread-local's address it computed before
+            // the switch, i.e. the other thread's.
+            #[inline(never)]
             pub(crate) fn init_current(current: &Self) {
                 $name.with(|s| unsafe {
                     s.as_ptr()
@@ -115,6 +120,7 @@ macro_rules! impl_current_for {
             /// Get the current if has.
             #[must_use]
             #[allow(unreachable_pub)]
+            #[inline(never)]
             pub fn current<'current>() -> Option<&'current Self> {
                 $name.try_with(|s| unsafe {
                     s.as_ptr()
@@ -134,6 +140,7 @@ macro_rules! impl_current_for {
             }
 
             /// Clean the current.
+            #[inline(never)]
             pub(crate) fn clean_current() {
                 _ = $name.try_with(|s| unsafe {
                     _ = s.as_ptr()
